@@ -18,6 +18,7 @@ import (
 	"io"
 	"io/ioutil"
 	"os"
+	"path"
 
 	"github.com/tmpim/casket/caskethttp/httpserver"
 	"github.com/tmpim/casket/caskethttp/markdown/metadata"
@@ -41,7 +42,13 @@ var recognizedMetaTags = []string{
 // Summarize returns an abbreviated string representation of the markdown stored in this file.
 // wordcount is the number of words returned in the summary.
 func (f FileInfo) Summarize(wordcount int) (string, error) {
-	fp, err := f.ctx.Root.Open(f.Name())
+	// the entries handed to the template are those of the directory the
+	// request names: open the file there, not in the site root
+	name := f.Name()
+	if f.ctx.Req != nil && f.ctx.Req.URL != nil {
+		name = path.Join(f.ctx.Req.URL.Path, name)
+	}
+	fp, err := f.ctx.Root.Open(name)
 	if err != nil {
 		return "", err
 	}
